@@ -76,6 +76,7 @@ and decl_of = function
 (* ---- printing ---- *)
 let bits l = String.concat "" (List.map (fun b -> if b then "1" else "0") l)
 
+let no_open = ref false
 let cur_labs : label list ref = ref []
 let open_bits o =
   (* hidden/definition labels are never probed by the harness: always 1 *)
@@ -85,27 +86,53 @@ let rec show r =
   if core_err r then "E" else
     match r with
     | RBot | RFuel -> "E"
-    | RVal (k, a, p) -> "V" ^ bits k ^ ":" ^ bits a ^ ":" ^ bits p
+    | RVal (k, a, p) -> if !no_open then "V" ^ bits k ^ ":" ^ bits p else "V" ^ bits k ^ ":" ^ bits a ^ ":" ^ bits p
     | RStruct (fs, o) ->
       "{" ^ String.concat "," (List.map (fun (p, r') ->
           match p with
           | PAbsent -> "-"
           | POptional -> "?" ^ show_nested r'
           | PRequired -> "!" ^ show_nested r'
-          | PRegular -> "=" ^ show r') fs) ^ "|" ^ open_bits o ^ "}"
+          | PRegular -> "=" ^ show r') fs) ^ (if !no_open then "" else "|" ^ open_bits o) ^ "}"
 and show_nested r =
   (* the API does not report values of optional/required fields as concrete: mask the pin bits *)
   if core_err r then "E" else
     match r with
-    | RVal (k, a, p) -> "V" ^ bits k ^ ":" ^ bits a ^ ":" ^ bits (List.map (fun _ -> false) p)
+    | RVal (k, a, p) -> if !no_open then "V" ^ bits k ^ ":" ^ bits (List.map (fun _ -> false) p) else "V" ^ bits k ^ ":" ^ bits a ^ ":" ^ bits (List.map (fun _ -> false) p)
     | _ -> show r
 
 let split_on_string sep s =
   (* split on " ; " / " | " style separators given as a single char surrounded by blanks *)
   List.map String.trim (String.split_on_char sep s)
 
+let parse_disj s =
+  (* "*sexpr , sexpr , ..." *)
+  List.map (fun d ->
+      let d = String.trim d in
+      let (m, d) = if String.length d > 0 && d.[0] = '*' then (true, String.sub d 1 (String.length d - 1)) else (false, d) in
+      let (sx, _) = parse_sx (tokenize d) in
+      (m, expr_of sx)) (List.filter (fun x -> String.trim x <> "") (String.split_on_char ',' s))
+
+let handle_disj head plain disjs =
+  match List.filter (fun w -> w <> "") (String.split_on_char ' ' head) with
+  | ["DISJ"; labs; atoms] ->
+    let labs = List.map label_of (String.split_on_char ',' labs) in
+    let atoms = List.map atom_of (String.split_on_char ',' atoms) in
+    cur_labs := labs; no_open := true;
+    let plain = List.map (fun s -> let (sx, _) = parse_sx (tokenize s) in expr_of sx)
+        (List.filter (fun s -> s <> "") (split_on_string ';' plain)) in
+    let ds = List.map parse_disj (List.filter (fun s -> s <> "") (split_on_string ';' disjs)) in
+    let (((r, acc), late), vals) = core_eval_disj labs atoms (nat_of_int 40) plain ds in
+    let out = (match r with
+        | Chosen v -> "CHOSEN " ^ show v
+        | Ambiguous -> "AMBIG -"
+        | NoValue -> "NOVALUE -") ^ " " ^ bits acc ^ (if late then " LATE " ^ String.concat ";" (List.map show vals) else "") in
+    no_open := false; out
+  | _ -> "BADCASE"
+
 let handle line =
   match split_on_string '|' line with
+  | [head; plain; disjs] -> handle_disj head plain disjs
   | [head; body] ->
     (match List.filter (fun w -> w <> "") (String.split_on_char ' ' head) with
      | [("EVAL" | "ADMIT") as mode; labs; atoms] ->
